@@ -17,6 +17,40 @@ DEVS = [
 SHAPES = [dict(n_creds=2, eq=True), dict(n_creds=3, eq=True), dict(n_creds=2, eq=True, comm=True), dict(n_creds=3, eq=True, n_claims=4), dict(n_creds=4, eq=True, n_claims=3)]
 
 
+def honest_equalities(ctx):
+    """the other half of the property: an honest holder whose referenced values are identical always succeeds,
+    however the verifier writes the equalities (one statement, a chain of pairwise statements, a star)"""
+    import random
+    import common as C
+    import create_common as CC
+    rng = random.Random(ctx["seed"] + 9)
+    cs = []
+    for i in range(60 if ctx["tier"] == "thorough" else 12):
+        n = 3 + (i % 2)
+        s = CC.gen(rng, "ps" if i % 2 else "bbs", n_creds=n, kinds=["eq", "comm"], eq_shape=["chain", "star", "one"][i % 3])
+        if not any(st["k"] == "eq" for st in s["stmts"]):
+            continue
+        cs.append(s)
+    out = []
+    for s, r in zip(cs, C.run_exec_parallel(cs, nproc=16) if len(cs) >= 64 else [C.run_exec([c])[0] for c in cs]):
+        if r.get("create") != "ok" or r.get("verify") != "ok":
+            eqs = [st["refs"] for st in s["stmts"] if st["k"] == "eq"]
+            out.append({"class": None, "witness": True, "case": s,
+                        "text": f"honest holder with identical values is refused ({s['suite']}, equality statements {eqs}): create={r.get('create')} verify={r.get('verify')} {r.get('msg', '')}"})
+    return len(cs), out
+
+
 def explore(ctx):
+    res = explore_dev(ctx)
+    if not ctx.get("replay"):
+        n, fails = honest_equalities(ctx)
+        res["evaluations"] = res.get("evaluations", 0) + n
+        res["failures"] = res.get("failures", []) + fails
+        res.setdefault("histograms", {})["honest_equality_shapes"] = n
+        res["rule"] = res.get("rule", "") + "; plus honest Presentation::create -> verify over 3..4 credentials with the equalities written as one statement, a chain of pairwise statements or a star"
+    return res
+
+
+def explore_dev(ctx):
     return K.explore_generic("C09", ctx, DEVS, SHAPES, {"C09"},
                              "(2..4 credentials of one or several issuers; unequal values with the honest shared nonce, with independent nonces, with the first credential's nonce and value copied into the other proof's response slot; equality proof omitted; signature proof of a referenced statement replaced; disclosed-index padding on a referenced statement)")
